@@ -136,7 +136,8 @@ CLAIMS = {
         'text': 'C12_parity / C12_same_cursors (coq/Prop_C12.v), on the specification the model refines exactly: erasing every accessor '
                 'flag of a tree whose function parameters and filter operands carry none (acc_clean: proved for EVERY tree the parser '
                 'model returns, C12_parsed_trees_acc_clean / C12_parity_of_parsed_trees; the driver also evaluates it on every parsed '
-                'tree, together with erase(accessor-mode tree) = plain-mode tree, which is not a theorem) selects the same cursors in the same order — one '
+                'tree; C12_modes_parse_alike: Parse in plain mode returns exactly the flag-erased tree of Parse in accessor mode or the same '
+                'error — the 46 actions commute with flag erasure; C12_end_to_end combines them from the path text) selects the same cursors in the same order — one '
                 'result per value, each yielding it, same failures; parameters and operands are identical subtrees in both modes. '
                 'Direct oracle: every generated path evaluated in both modes with recording functions (values, order, errors, argument logs).',
         'note': NOTE_COMMON, 'technique': 'Coq proof on the specification (mutual induction) + paired-mode oracle + correspondence'},
